@@ -298,6 +298,7 @@ Proof.
   assert (H5 : inval 5 = true) by (apply Hall; cbn; tauto).
   assert (H6 : inval 6 = true) by (apply Hall; cbn; tauto).
   assert (H7 : inval 7 = true) by (apply Hall; cbn; tauto).
+  assert (H8 : inval 8 = true) by (apply Hall; cbn; tauto).
   destruct o as [c k v|c k v|c k|kvs|ks| |c|c|c|c k|c q k|q k m|c q k b strat]; cbn [step fst].
   - destruct v; [exact Hs|]. destruct (too_long maxd (n :: v)); [exact Hs|].
     cbn [fst]. apply inv_put; [|exact Hs]. unfold M_STORE, M_COLL_STORE. destruct (N.eqb c 0); assumption.
@@ -308,7 +309,7 @@ Proof.
   - match goal with |- context [if ?b then _ else _] => destruct b end; [exact Hs|].
     generalize 0 as cnt. revert s Hs. induction kvs as [|kv r IH]; intros s Hs cnt; cbn [batch_put fst]; [exact Hs|].
     destruct (too_long maxd (snd kv)); [exact Hs|].
-    apply IH. apply inv_put; [exact H0|exact Hs].
+    apply IH. apply inv_put; [exact H8|exact Hs].
   - match goal with |- context [let '(_, _) := ?e in _] => destruct e as [d n] end. cbn [fst]. apply inv_aset; [exact Hs|].
     intros snap. rewrite drop_cache_none; [discriminate|exact H3].
   - apply inv_aset; [exact Hs|]. intros snap. rewrite drop_cache_none; [discriminate|exact H4].
@@ -346,7 +347,8 @@ Definition stale_witness (m : N) : list op :=
   | 4 => [OStore 0 0 [1]; OBuild 0; OClear]
   | 5 => [OStore 1 0 [1]; OBuild 1; OStore 1 1 [1]]
   | 6 => [OStore 1 0 [1]; OBuild 1; ODelete 1 0]
-  | _ => [OCreateColl 1; OStore 1 0 [1]; OBuild 1; ODeleteColl 1]
+  | 7 => [OCreateColl 1; OStore 1 0 [1]; OBuild 1; ODeleteColl 1]
+  | _ => [OStore 0 0 [1]; OBuild 0; OBatchStore [(1, [1])]]
   end.
 
 Theorem cache_discipline_needed m : In m mutators -> inval m = false -> ~ CacheInv (runm [] (stale_witness m)).
@@ -357,7 +359,8 @@ Proof.
   set (w := stored keep eps num den [1]) in *.
   repeat (destruct Hm as [<-|Hm]); [..|contradiction]; cbn [stale_witness run step fst] in Hinv;
     rewrite ?Htl in Hinv; cbn [fst] in Hinv;
-    unfold put_vec, cget, drop_cache, M_STORE, M_DELETE, M_STORE_META, M_BATCH_DELETE, M_CLEAR, M_COLL_STORE, M_COLL_DELETE, M_DELETE_COLL in Hinv;
+    cbn [batch_put existsb snd fst] in Hinv; rewrite ?Htl in Hinv; cbn [batch_put fst] in Hinv;
+    unfold put_vec, cget, drop_cache, M_STORE, M_DELETE, M_STORE_META, M_BATCH_DELETE, M_CLEAR, M_COLL_STORE, M_COLL_DELETE, M_DELETE_COLL, M_BATCH_STORE in Hinv;
     cbn [aget aset adel N.eqb data cache created empty_coll dims_consistent forallb fold_left] in Hinv;
     fold w in Hinv.
   all: repeat match type of Hinv with
